@@ -47,19 +47,54 @@ func runScenarios(res *lp.Result, child string, n int, describe func(i int) stri
 	runScenariosAt(res, child, idx, describe)
 }
 
-// runScenariosAt runs the child scenarios with the given indices
+type scnOut struct {
+	res    *lp.Result
+	crash  string
+	stderr string
+}
+
+// runChild runs one scenario in a child process
+func runChild(child string, index int) scnOut {
+	tmp, _ := os.CreateTemp("", "verif-scn-*.json")
+	tmp.Close()
+	defer os.Remove(tmp.Name())
+	ctx, cancel := context.WithTimeout(context.Background(), 90*time.Second)
+	defer cancel()
+	cmd := exec.CommandContext(ctx, os.Args[0], "-tier", *tier, "-seed", fmt.Sprint(*seed), "-driver", *driverPath, "-gen", *genDir,
+		"-out", tmp.Name(), child)
+	cmd.Env = append(os.Environ(), fmt.Sprintf("VERIF_SCENARIO=%d", index))
+	var eb bytes.Buffer
+	cmd.Stderr = &eb
+	cmd.Stdout = io.Discard
+	err := cmd.Run()
+	o := scnOut{stderr: eb.String()}
+	if b, rerr := os.ReadFile(tmp.Name()); rerr == nil && len(b) > 0 {
+		var r lp.Result
+		if json.Unmarshal(b, &r) == nil {
+			o.res = &r
+		}
+	}
+	if err != nil && o.res == nil {
+		if ctx.Err() != nil {
+			o.crash = "scenario does not terminate within 90 s (deadlock)"
+		} else {
+			o.crash = "process crashed: " + crashLine(eb.String())
+		}
+	}
+	return o
+}
+
+// runScenariosAt runs the child scenarios with the given indices, several at a time. The scenarios depend on wall-clock
+// time (read timeouts, bounded waits): a finding of the parallel pass — other than a crash of the process, which load cannot
+// cause — counts only if the same scenario, re-run ALONE, shows the same finding again; otherwise it is counted as
+// unconfirmed and noted.
 func runScenariosAt(res *lp.Result, child string, indices []int, describe func(i int) string) {
 	n := len(indices)
 	par := runtime.NumCPU()
 	if par > 8 {
 		par = 8
 	}
-	type out struct {
-		res    *lp.Result
-		crash  string
-		stderr string
-	}
-	outs := make([]out, n)
+	outs := make([]scnOut, n)
 	var wg sync.WaitGroup
 	sem := make(chan struct{}, par)
 	for i := 0; i < n; i++ {
@@ -68,42 +103,45 @@ func runScenariosAt(res *lp.Result, child string, indices []int, describe func(i
 		go func(i int) {
 			defer wg.Done()
 			defer func() { <-sem }()
-			tmp, _ := os.CreateTemp("", "verif-scn-*.json")
-			tmp.Close()
-			defer os.Remove(tmp.Name())
-			ctx, cancel := context.WithTimeout(context.Background(), 90*time.Second)
-			defer cancel()
-			cmd := exec.CommandContext(ctx, os.Args[0], "-tier", *tier, "-seed", fmt.Sprint(*seed), "-driver", *driverPath, "-gen", *genDir,
-				"-out", tmp.Name(), child)
-			cmd.Env = append(os.Environ(), fmt.Sprintf("VERIF_SCENARIO=%d", indices[i]))
-			var eb bytes.Buffer
-			cmd.Stderr = &eb
-			cmd.Stdout = io.Discard
-			err := cmd.Run()
-			o := out{stderr: eb.String()}
-			if b, rerr := os.ReadFile(tmp.Name()); rerr == nil && len(b) > 0 {
-				var r lp.Result
-				if json.Unmarshal(b, &r) == nil {
-					o.res = &r
-				}
-			}
-			if err != nil && o.res == nil {
-				if ctx.Err() != nil {
-					o.crash = "scenario does not terminate within 90 s (deadlock)"
-				} else {
-					o.crash = "process crashed: " + crashLine(eb.String())
-				}
-			}
-			outs[i] = o
+			outs[i] = runChild(child, indices[i])
 		}(i)
 	}
 	wg.Wait()
+	whats := func(o scnOut) map[string]bool {
+		m := map[string]bool{}
+		if o.crash != "" {
+			m[o.crash] = true
+		}
+		if o.res != nil {
+			for _, f := range o.res.Findings {
+				m[f.Kind+"/"+f.What] = true
+			}
+		}
+		return m
+	}
 	for i, o := range outs {
 		d := describe(indices[i])
 		res.Count("scenarios")
+		suspicious := o.crash != "" || o.res == nil || len(o.res.Findings) > 0
+		crashed := strings.HasPrefix(o.crash, "process crashed")
+		var confirmed map[string]bool
+		if suspicious && !crashed {
+			confirmed = map[string]bool{}
+			for attempt := 0; attempt < 2; attempt++ {
+				for w := range whats(runChild(child, indices[i])) {
+					confirmed[w] = true
+				}
+			}
+			res.Count("scenarios/re-run-alone")
+		}
 		if o.crash != "" {
-			res.Case(d, true)
-			res.Add(lp.Finding{Kind: "violation", What: o.crash, Input: d, Impl: trunc(o.stderr)})
+			if crashed || confirmed[o.crash] {
+				res.Case(d, true)
+				res.Add(lp.Finding{Kind: "violation", What: o.crash, Input: d, Impl: trunc(o.stderr)})
+			} else {
+				res.Count("unconfirmed/" + o.crash)
+				res.Notes = append(res.Notes, "not reproduced when re-run alone (machine load?): "+o.crash+" ["+d+"]")
+			}
 			continue
 		}
 		if o.res == nil {
@@ -116,7 +154,12 @@ func runScenariosAt(res *lp.Result, child string, indices []int, describe func(i
 			res.Distribution[k] += v
 		}
 		for _, f := range o.res.Findings {
-			res.Add(f)
+			if confirmed == nil || confirmed[f.Kind+"/"+f.What] {
+				res.Add(f)
+			} else {
+				res.Count("unconfirmed/" + f.What)
+				res.Notes = append(res.Notes, "not reproduced when re-run alone (machine load?): "+f.What+" ["+d+"]")
+			}
 		}
 		if len(res.Samples) < 12 {
 			res.Samples = append(res.Samples, o.res.Samples...)
